@@ -10,6 +10,9 @@ read at `ℝ` as finite sums over `Finset.range n`.
 namespace Bpp.Hmm
 open Bpp Finset
 
+/-- the real numbers have no infinite element -/
+instance : HasIsInf ℝ := ⟨fun _ => false⟩
+
 section Generic
 variable {α : Type}
 
